@@ -4,6 +4,9 @@ import "github.com/theQRL/go-qrllib/misc"
 
 func hashH(hashFunction HashFunction,
 	out []uint8, in []uint8, pubSeed []uint8, addr *[8]uint32, n uint32) {
+	if verifNode(hashFunction, out, addr) {
+		return
+	}
 	buf := make([]uint8, 2*n)
 	key := make([]uint8, n)
 	bitMask := make([]uint8, 2*n)
